@@ -169,7 +169,11 @@ def fam_timers(seed, i):
         # several one-shots that finish in arming order while a later-armed timer is still pending
         sscr0 = [eff(rng.choice(["delayed_send", "delayed_exec"]), 1, f"o{k}") for k in range(rng.choice([2, 3]))] + [eff(rng.choice(["interval", "interval_with", "delayed_send", "delayed_exec"]), rng.randint(4, 6), "late")]
     strat = rng.choice(["restart", "restart", "recreate", "none"])
-    cfg = {"cap": rng.choice([-1, -1, 0, 1, 2]), "strat": strat, "pscr": [Y] * rng.choice([0, 1]), "sscr": [sscr0], "owning": rng.random() < 0.3}
+    sscr = [sscr0]
+    if rng.random() < 0.2:
+        # the restarted started() fails while timers of the previous incarnation are armed
+        sscr.append([Y] * rng.choice([0, 1]) + [eff(rng.choice(["err", "panic"]))])
+    cfg = {"cap": rng.choice([-1, -1, 0, 1, 2]), "strat": strat, "pscr": [Y] * rng.choice([0, 1]), "sscr": sscr, "owning": rng.random() < 0.3}
     fault = rng.choice(["none", "none", "none", "panic", "cancel"])
     if fault == "cancel":
         sc["cancels"] = 1
